@@ -25,6 +25,11 @@ package netpoll
 //            the package-level netpoll.Initialize() with the first Picks after a SetNumLoops; for its duration the global
 //            `pollmanager` IS the scenario's manager (Initialize has no other way in).
 //
+// `pend I,J,.. <pick|reset|close>` (sequential scenarios): the op runs while the loops of the pollers in slots I,J,.. are parked
+// inside a callback (a pipe registered with them) and have an unconsumed Trigger(): the Close() that a shrinking Run / Reset /
+// manager.Close writes then ADDS to the pending wake-up on the eventfd counter.  The loops are let go before the reply is taken;
+// the model and the spec oracle read the line as the inner op.
+//
 // After every phase each known poller is probed: Trigger() succeeds and a pipe registered with
 // Control(PollReadable) gets its OnRead callback from the poller's loop.
 
